@@ -412,11 +412,18 @@ def outer (sig : Sig) (pos : List Val) (kw : List (String × Val)) : Except Type
   | .error e => .error e
   | .ok b => .ok (invocation sig b)
 
+/-- The generated function's body is `return _call(<invocation>)`, with `_call` (the `logging_wrapper`) a
+global of the `exec` namespace (`execdict = dict(_call=wrapper, _func=func)`): a parameter called `_call`
+hides it. (`_func` is not used by the body.) -/
+def Sig.capturesCall (sig : Sig) : Bool := sig.names.contains "_call"
+
 /-- A call of the decorated function. -/
 def decorated (m : FnMeta) (sig : Sig) (opts : Opts) (f : Body) (pos : List Val) (kw : List (String × Val)) : Run :=
   match outer sig pos kw with
   | .error _ => ⟨[], .raised .typeError⟩
-  | .ok (pos', kw') => wrapper m sig opts f pos' kw'
+  | .ok (pos', kw') =>
+    -- `return _call(<invocation>)`: a parameter of that name shadows the global; argument values are not callable
+    if sig.capturesCall then ⟨[], .raised .typeError⟩ else wrapper m sig opts f pos' kw'
 
 /-- Stacked decoration `log_call(**outer)(log_call(**inner)(f))`.  The function the outer `log_call`
 wraps is the one boltons generated for the inner layer: its parameters are `sig.demote`, and calling it
@@ -426,6 +433,7 @@ def decoratedTwice (mOuter mInner : FnMeta) (sig : Sig) (optsOuter optsInner : O
   match outer sig.demote pos kw with
   | .error _ => ⟨[], .raised .typeError⟩
   | .ok (pos', kw') =>
+    if sig.capturesCall then ⟨[], .raised .typeError⟩ else
     match getcallargs sig.demote pos' kw' with
     | .error _ => ⟨[], .raised .typeError⟩
     | .ok ca0 =>
